@@ -6,8 +6,10 @@ namespace EtkVerif.Driver
 open EtkVerif Asm
 
 /-- fuel for a file tree whose files hold `total` bytes altogether: above `256 * (N + 2)` for every `N ≤ total + 1`
-(`C14_ingest_terminates`: the include recursion) and above `257 * (opsSize + 2)` for the ops such sources can yield
-(`C14_terminates`: the assembler), so that the fuel marker is never the answer -/
+(`C14_ingest_terminates`: the include recursion).  For the assembler phase the proved bound is `257 * (opsSize + 2)` of
+the ops the sources yield; this linear fuel is above it for ordinary trees but NOT in general (a chain of files that
+each import the next one twice multiplies the ops exponentially) — for `asmfs` "fuel is never the answer" is therefore
+observed on the generated trees, not proved, unlike for `asm` (`asmFuelOps`). -/
 def fsFuel (total : Nat) : Nat := 1100 * (total + 100) + 100000
 
 def strOfBytes (bs : List Nat) : String :=
